@@ -51,18 +51,21 @@ def cycle(cause, sm, **kw):
     except BaseException as e:
         return type(e).__name__
     return 'ok'
-cause, sm = sys.argv[1], sys.argv[2]
-kw = json.loads(sys.argv[3])
-std = tu.get_tqdm(None)
-cycle(cause, sm, **kw)            # warm-up
-gc.collect(); time.sleep(0.3)
-base = dict(fds=len(os.listdir('/proc/self/fd')), threads=sorted(t.name for t in threading.enumerate()), children=len(children()),
-            handler=repr(signal.getsignal(signal.SIGINT)), lock=id(std.get_lock()))
-outs = [cycle(cause, sm, **kw) for _ in range(3)]
-gc.collect(); time.sleep(0.5)
-after = dict(fds=len(os.listdir('/proc/self/fd')), threads=sorted(t.name for t in threading.enumerate()), children=len(children()),
-             handler=repr(signal.getsignal(signal.SIGINT)), lock=id(std.get_lock()))
-print(json.dumps({'base': base, 'after': after, 'outs': outs}))
+def main():
+    cause, sm = sys.argv[1], sys.argv[2]
+    kw = json.loads(sys.argv[3])
+    std = tu.get_tqdm(None)
+    cycle(cause, sm, **kw)            # warm-up
+    gc.collect(); time.sleep(0.3)
+    base = dict(fds=len(os.listdir('/proc/self/fd')), threads=sorted(t.name for t in threading.enumerate()), children=len(children()),
+                handler=repr(signal.getsignal(signal.SIGINT)), lock=id(std.get_lock()))
+    outs = [cycle(cause, sm, **kw) for _ in range(3)]
+    gc.collect(); time.sleep(0.5)
+    after = dict(fds=len(os.listdir('/proc/self/fd')), threads=sorted(t.name for t in threading.enumerate()), children=len(children()),
+                 handler=repr(signal.getsignal(signal.SIGINT)), lock=id(std.get_lock()))
+    print(json.dumps({'base': base, 'after': after, 'outs': outs}))
+if __name__ == '__main__':
+    main()
 '''
 
 
@@ -72,7 +75,7 @@ def run_driver(code, args, timeout=90):
     d = tempfile.mkdtemp(prefix='mpire_verif_rp_')
     path = os.path.join(d, 'rp_driver.py')
     with open(path, 'w') as f:
-        f.write("if True:\n" + code if False else code.replace("\ncause, sm = sys.argv[1]", "\nif __name__ != '__main__':\n    raise SystemExit\ncause, sm = sys.argv[1]"))
+        f.write(code)
     try:
         return _run_file(path, args, timeout)
     finally:
@@ -95,12 +98,19 @@ def _run_file(path, args, timeout):
 def leak_suite(chk):
     code = LEAK_DRIVER % {'root': ROOT}
     causes = ['success', 'task_exc', 'init_exc', 'exit_exc', 'timeout', 'terminate_during_imap', 'abandoned_imap', 'mixed_map', 'progress', 'apply']
+    jobs = []
     for cause in causes:
         for sm in ('fork', 'threading', 'spawn'):
             if cause == 'timeout' and sm == 'threading':
                 continue
             for kw in ({}, {'keep_alive': True}):
-                rc, out, err = run_driver(code, [cause, sm, json.dumps(kw)])
+                jobs.append((cause, sm, kw))
+    from concurrent.futures import ThreadPoolExecutor
+    with ThreadPoolExecutor(6) as ex:
+        results = list(ex.map(lambda j: run_driver(code, [j[0], j[1], json.dumps(j[2])], timeout=150), jobs))
+    if True:
+        if True:
+            for (cause, sm, kw), (rc, out, err) in zip(jobs, results):
                 case = {'cause': cause, 'start_method': sm, 'pool': kw, 'cycles': 3}
                 if rc == 'timeout':
                     chk.notes.setdefault('realproc_inconclusive', []).append(case)      # infrastructure-level: not a verdict by itself
